@@ -407,18 +407,6 @@ def dispatch(it, body, st, t, fn, args, depth):
             if kz:
                 return [("panic", st, "gen_biguint_below(0)")]
             return ret(st, MAG(opaque_sym("below", v[1])))
-    if path == "bigint::shift::shr_round_down" and len(args) == 2:
-        # trusted summary (its read-set is checked by R9): false for non-negative values, otherwise "some one bit is shifted out"
-        v = it.deref_all(st, args[0])
-        if v[0] == "struct":
-            sg = v[2]["sign"]
-            if sg[2] is not None:
-                raise NeedFork(("zero", sg[2]))
-            if sg[1] >= 0:
-                return ret(st, BOOL(False))
-            if "round_down" not in st.bools:
-                raise NeedFork(("bool", "round_down"))
-            return ret(st, BOOL(st.bools["round_down"]))
     # ---- constructors
     if path == "bigint::BigInt::from_biguint":
         s = args[0]
@@ -499,6 +487,8 @@ def dispatch(it, body, st, t, fn, args, depth):
                 if st.bools[key]:
                     return ret(st, ENUM("core::option::Option", "Some", [INT(-p, name[3:])]))
                 return ret(st, ENUM("core::option::Option", "None", []))
+        if v[0] == "int":
+            v = MAG(v[1])
         if v[0] == "mag":
             p = v[1]
             ty = name[3:]
@@ -528,6 +518,47 @@ def dispatch(it, body, st, t, fn, args, depth):
                 return ret(st, ENUM("core::option::Option", "Some", [MAG(sym)]) if st.bools[key] else ENUM("core::option::Option", "None", []))
             if d in UNSIGNED:
                 return ret(st, INT(sym, d))
+    # Option combinators with a closure argument: the closure body is interpreted
+    if name in ("map", "map_or", "unwrap_or", "and_then", "unwrap_or_else") and args and args[0][0] == "enum" and args[0][1].endswith("Option"):
+        opt = args[0]
+
+        def call_closure(clo, argv):
+            if clo[0] != "closure":
+                raise Unsupported("non-closure function value")
+            cb = it.facts.body(clo[1])
+            if cb is None:
+                raise Unsupported("closure body not found")
+            outs = []
+            for o in it.run_body(cb, st, [TUPLE(list(clo[2]))] + argv, depth + 1):
+                if o[0] != "return":
+                    raise Unsupported("closure reaches %s" % o[0])
+                outs.append(o)
+            return outs
+
+        if name == "unwrap_or":
+            return ret(st, opt[3][0] if opt[2] == "Some" else args[1])
+        if name == "map":
+            if opt[2] == "None":
+                return ret(st, ENUM(opt[1], "None", []))
+            return [("return", o[1], ENUM(opt[1], "Some", [o[2]])) for o in call_closure(args[1], [opt[3][0]])]
+        if name == "map_or":
+            if opt[2] == "None":
+                return ret(st, args[1])
+            return [("return", o[1], o[2]) for o in call_closure(args[2], [opt[3][0]])]
+        if name == "and_then":
+            if opt[2] == "None":
+                return ret(st, ENUM(opt[1], "None", []))
+            return [("return", o[1], o[2]) for o in call_closure(args[1], [opt[3][0]])]
+    if name == "trailing_zeros" and args:
+        v = it.deref_all(st, args[0])
+        m = v[2]["data"][1] if v[0] == "struct" else (v[1] if v[0] == "mag" else None)
+        if m is not None:
+            kz = st.known_zero(m)
+            if kz is None:
+                raise NeedFork(("zero", m))
+            if kz:
+                return ret(st, ENUM("core::option::Option", "None", []))
+            return ret(st, ENUM("core::option::Option", "Some", [INT(opaque_sym("tz", m), "u64")]))
     # Option / Try plumbing
     if raw == "core::ops::Try::branch" or name == "branch":
         v = args[0]
